@@ -19,7 +19,7 @@ MANIFEST = dict(
 INVS = ["TypeOK", "CbAtMostOnce", "CbAfterSubtree", "ExitNeverFails", "FoldOrder"]
 PROPS = ["Attribution", "CompletedStable"]
 INTERNAL = ["RunCb", "Finish"]
-MT = ["Cat", "Last", "Sum", "Boom"]
+MT = ["Cat", "Last", "Sum", "Boom", "Same"]
 
 
 def run(rep, work, tier, seed):
